@@ -62,6 +62,12 @@ def sig_digits(q: Fraction) -> int:
 SPEC_TYPE = "00000035-0000-1000-8000-0026BB765291"     # target temperature: the type's own defaults are 10..38 step 0.1
 
 
+@lru_cache(maxsize=1)
+def _ble_identity():
+    from vlib.refhap import RefIdentity
+    return RefIdentity(b"AA:BB:CC:DD:EE:FF", bytes(range(32)))
+
+
 def make_service(fmt, mn, mx, stp, construct="kwargs"):
     return _make_service(fmt, mn, type(mn).__name__, mx, type(mx).__name__, stp, type(stp).__name__, construct)
 
@@ -83,31 +89,26 @@ def _make_service(fmt, mn, _t1, mx, _t2, stp, _t3, construct):
         if mx is not None:
             ch.maxValue = mx
         return svc, ch
-    if construct == "ble-signature":
+    if construct in ("ble-signature", "ble-signature-spec"):
         # the way a Bluetooth accessory declares it: a characteristic signature (HAP-BLE 7.3.4.x) with Valid-Range and Step-Value descriptors in
-        # the characteristic's own wire format, decoded by the tree and copied onto the model as BlePairing._async_fetch_gatt_database does
-        import struct
+        # the characteristic's own wire format, served by the simulated accessory and read by the tree's own GATT database fetch
+        # (BlePairing._async_fetch_gatt_database); "-spec": a type with defaults of its own (target temperature), complete declarations only
+        from aiohomekit.controller.ble.pairing import BlePairing
+        from vlib import vtime
+        from vlib.blesim import SVC_TEST, FakeBleClient, RefBleAccessory
 
-        from aiohomekit.controller.ble.structs import Characteristic as BleSignature
-        from vlib import refhap
-        fmt_byte, code = {"uint8": (0x04, "B"), "uint16": (0x06, "H"), "uint32": (0x08, "I"), "uint64": (0x0A, "Q"), "int": (0x10, "i"), "float": (0x14, "f")}[fmt]
-        items = [(0x04, (0xFF01).to_bytes(16, "little")), (0x05, struct.pack("<H", 9)), (0x0A, struct.pack("<H", 0x0030)), (0x0C, struct.pack("<BbHBH", fmt_byte, 0, 0x2700, 1, 0))]
-        if mn is not None and mx is not None:
-            items.append((0x0D, struct.pack("<" + code * 2, mn, mx)))
-        if stp is not None:
-            items.append((0x0E, struct.pack("<" + code, stp)))
-        decoded = BleSignature.decode(refhap.enc_struct(items)).to_dict()
-        ch = svc.add_char(CHAR_TYPE)
-        ch.perms = decoded.get("perms", [])
-        if "format" in decoded:
-            ch.format = decoded["format"]
-        if "minStep" in decoded:
-            ch.minStep = decoded["minStep"]
-        if "minValue" in decoded:
-            ch.minValue = decoded["minValue"]
-        if "maxValue" in decoded:
-            ch.maxValue = decoded["maxValue"]
-        return svc, ch
+        class _FetchOnly(BlePairing):
+            name = "sim"
+            rssi = None
+
+            def __init__(self, client):
+                self.client = client
+        ctype = SPEC_TYPE if construct == "ble-signature-spec" else CHAR_TYPE
+        decl = {"uuid": ctype, "format": fmt, "perms": ["pr", "pw"], "value": b"", "min": mn, "max": mx, "step": stp}
+        sim = RefBleAccessory(_ble_identity(), {9: decl})
+        accs = vtime.run_shared(_FetchOnly(FakeBleClient(sim))._async_fetch_gatt_database())
+        ch = accs.aid(1).characteristics.iid(9)
+        return ch.service, ch
     kw = {"format": fmt, "perms": ["pr", "pw"]}
     if mn is not None:
         kw["min_value"] = mn
@@ -135,7 +136,9 @@ def run_case(case, R):
     fmt, mn, mx, stp, v = case["fmt"], case.get("min"), case.get("max"), case.get("step"), case["v"]
     via = case.get("via", "build_update")
     construct = case.get("construct", "kwargs")
-    if construct == "ble-signature":
+    if construct == "ble-signature" and fmt == "float" and None not in (mn, mx, stp) and case.get("spec"):
+        construct = "ble-signature-spec"
+    if construct in ("ble-signature", "ble-signature-spec"):
         # representable in the wire format only: both bounds or none, integral and in range for integer formats, float32-exact for float
         import struct as _st
         ok = fmt != "bool" and (mn is None) == (mx is None)
@@ -324,7 +327,8 @@ def cases(draw):
         v = draw(st.one_of(st.booleans(), st.sampled_from([0, 1, 2, -1, 1.0, 0.0, "true", "false", "True", "FALSE", "on", "off", "yes", "no",
                                                            "y", "n", "t", "f", "1", "0", "2", "maybe", "", None, "1.0", b"1", float("nan")])))
         return {"fmt": fmt, "v": v, "via": via}
-    case = {"fmt": fmt, "via": via, "construct": draw(st.sampled_from(["kwargs", "kwargs", "assign", "assign-spec", "json", "ble-signature"]))}
+    case = {"fmt": fmt, "via": via, "construct": draw(st.sampled_from(["kwargs", "kwargs", "assign", "assign-spec", "json", "ble-signature", "ble-signature"])),
+            "spec": draw(st.booleans())}
     if fmt == "float":
         mn = draw(st.sampled_from([None, None, 0, 0.0, 1, 10, 10.0, -100, 0.5, -2**31, 7.2, -50.5, 35]))
         stp = draw(st.sampled_from([None, None, 1, 1.0, 2, 5, 10, 0.1, 0.5, 0.01, 0.25, 0.2, 2.5]))
@@ -404,9 +408,11 @@ def enum_grid(tier):
     for mn, mx, stp in [(-90, 90, 1), (-40, 0, 5), (-100, -10, None), (-2**31, 2**31 - 1, None), (-2**31, -1, 7), (-1, 1, 1), (0, 100, 5)]:
         for v in (-2**31, -101, -100, -91, -90, -89, -45, -41, -40, -38, -12, -10, -9, -1, 0, 1, 3, 89, 90, 91, 2**31 - 1, "-30", -30.0):
             yield {"fmt": "int", "min": mn, "max": mx, "step": stp, "v": v, "via": "build_update", "construct": "ble-signature"}
-    for mn, mx, stp in [(10.0, 30.0, 0.5), (-50.5, 50.5, 0.5), (0.0, 1.0, 0.25)]:
+    for mn, mx, stp in [(10.0, 30.0, 0.5), (-50.5, 50.5, 0.5), (0.0, 1.0, 0.25), (0.0, 25.0, 0.5), (-20.0, 0.0, 0.5)]:
         for i in range(-30, 130, 3):
             yield {"fmt": "float", "min": mn, "max": mx, "step": stp, "v": i / 4, "via": "build_update", "construct": "ble-signature"}
+            # the same declaration on a type that has defaults of its own (10..38 step 0.1): what the accessory declares wins, zero included
+            yield {"fmt": "float", "min": mn, "max": mx, "step": stp, "v": i / 4, "via": "build_update", "construct": "ble-signature", "spec": True}
     # declared limits and steps that no double represents exactly, through every way metadata reaches the model
     for construct in ("kwargs", "assign", "json"):
         for mn, mx, stp in [(0, 2**64 - 1, None), (0, 2**64 - 1, 1), (0, 2**53 + 1, None), (2**60 + 1, 2**64 - 1, 2), (2**53 + 1, 2**62 + 3, None), (0, 2**63 + 1, 2**53 + 1)]:
